@@ -185,6 +185,22 @@ func planHorizonUs(p *Plan) int {
 
 func genPlanC10B(rt *rapid.T) *Plan {
 	var p *Plan
+	if rapid.IntRange(0, 7).Draw(rt, "backlog") == 0 {
+		// an application that is not reading while a long run of telegrams is accepted (every one of them parked),
+		// then Close: however large the backlog, Close returns and releases everything
+		p = genPlanC04(rt, false)
+		p.Gw = nil
+		n := rapid.SampledFrom([]int{33, 64, 65, 66, 100, 129, 200, 257}).Draw(rt, "backlog-n") + rapid.IntRange(0, 3).Draw(rt, "backlog-jitter")
+		for i := 0; i < n; i++ {
+			p.Gw = append(p.Gw, GwStep{AfterUs: 211, Kind: "req", Chan: "cur", Seq: "exp", Tag: 1000 + i})
+		}
+		p.Consumer, p.DrainUs, p.FailOut = nil, 0, nil
+		addClosers(rt, p, 1, n*211)
+		if rapid.IntRange(0, 3).Draw(rt, "close-mid-stream") > 0 {
+			p.Closers[0][0].AfterUs = n*211 + 500 + rapid.IntRange(0, 3000).Draw(rt, "close-after-backlog")
+		}
+		return p
+	}
 	switch rapid.IntRange(0, 3).Draw(rt, "base") {
 	case 0:
 		p = genPlanC03B(rt)
